@@ -212,6 +212,23 @@ def _suspended_on_await(code: CodeType, lasti: int) -> bool:
 # supplied code object should be traced.
 CodeFilter = Callable[[CodeType], bool]
 
+def _is_resumption(frame: FrameType) -> bool:
+    """Is this 'call' event a generator or coroutine frame being resumed?
+
+    On Python 3.11+ the frame then stands at a RESUME instruction with a
+    non-zero argument; a frame entered for the first time stands at RESUME 0.
+    """
+    if RESUME_OPCODE is None:
+        return False
+    co_code = frame.f_code.co_code
+    lasti = frame.f_lasti
+    return (
+        0 <= lasti < len(co_code) - 1
+        and co_code[lasti] == RESUME_OPCODE
+        and (co_code[lasti + 1] & 3) != 0
+    )
+
+
 EVENT_CALL = "call"
 EVENT_RETURN = "return"
 SUPPORTED_EVENTS = {EVENT_CALL, EVENT_RETURN}
@@ -252,6 +269,10 @@ class CallTracer:
         return self.cache[code]
 
     def handle_call(self, frame: FrameType) -> None:
+        if _is_resumption(frame):
+            # The call was either picked up when the frame was first entered or
+            # not sampled at all; its locals are no longer its arguments.
+            return
         if self.sample_rate and random.randrange(self.sample_rate) != 0:
             return
         func = self._get_func(frame)
